@@ -54,3 +54,8 @@ add('C08', 'exploration', 'memory-image monitor of mocked variables after every 
     'For 23 variable types x exported/unexported addressing, generated histories are run through the public API; after every step the variable\'s raw memory and a reader in the defining package are compared with the model (mocked value / pre-mock snapshot), and a panic out of Cancel/Reset counts as a violation. Histories are sampled (0-4 sets, 1-2 cancels, repeated lookups).',
     'Unexported interface-typed variables are observed on raw memory only and repaired by the harness (known finding).',
     'DESIGN.md 2 C08')
+
+add('C12', 'exploration', 'last-writer-wins reference-model monitor over generated lookup/Apply/Return/When/Cancel/Reset/Pkg histories',
+    'Generated histories over five handle kinds are executed through the public API; after every step the target (and another one) is called and compared with a reference model that asserts only what the statement fixes (later Apply wins, later Return/When after Apply wins, clauses accumulate across lookups, nothing survives Cancel/Reset, Pkg applies to one lookup). Sampled over histories.',
+    'Return issued directly after a When chain (chain state extends that clause) is not generated: the statement does not settle it. Both continued and fresh sequence semantics are accepted for repeated Return.',
+    'DESIGN.md 2 C12')
